@@ -285,6 +285,14 @@ def run_shard(spec):
                     # which let layer does the scope mapping stand for? (the one with its names)
                     names = [getattr(b, "name", None) for b in list(mapping)]
                     names = [n for n in names if isinstance(n, str)]
+                    for b in list(mapping):
+                        # inherit clauses are entries of the layer too
+                        for nm in (getattr(b, "names", None) or []):
+                            ident = getattr(nm, "name", None)
+                            if not isinstance(ident, str):
+                                ident = nm.__dict__.get("value") if hasattr(nm, "__dict__") else None
+                            if isinstance(ident, str):
+                                names.append(ident)
                     scope_layer = None
                     for li, layer in enumerate(dv.layers):
                         lp = A.to_plain(A.merge(layer))
